@@ -72,7 +72,10 @@ class SBV(core.Opaque):
     return cur().decide(self.t != 0)
 
   def __index__(self):
+    core.LAST_SYMBOLIC_COUNT = self.t
     raise PathAbort("symbolic integer used as a concrete count")
+
+  __int__ = __index__
 
   def __str__(self):
     return "<SBV>"
